@@ -161,6 +161,48 @@ func (s *Solver) solve(o *Oblig) {
 		}
 	}
 	script := o.script(true)
+	// stage 0: hypotheses restricted to the cone of influence of the goal (a
+	// sound subset of the hypotheses), first with the length axioms only
+	if !o.Cover && os.Getenv("GOVC_COI") != "" {
+		for _, lite := range []bool{true, false} {
+			cs := o.scriptCOI(lite)
+			if cs == script {
+				continue
+			}
+			hc := sha256.Sum256([]byte(cs))
+			kc := hex.EncodeToString(hc[:12])
+			if v, ok := s.liteCache.Load(kc); ok {
+				if v.(bool) {
+					o.Verdict, o.Solver = "unsat", solvers[0].name+"(coi)"
+					return
+				}
+				continue
+			}
+			cf := filepath.Join(s.dir, kc+".coi.smt2")
+			os.WriteFile(cf, []byte(cs), 0o644)
+			budget := 2
+			if !lite {
+				budget = 4
+			}
+			cr := runSolver(solvers[0], cf, budget, s.seed)
+			if os.Getenv("GOVC_KEEP_COI") == "" {
+				os.Remove(cf)
+			}
+			s.mu.Lock()
+			s.totalMS += cr.ms
+			s.queries++
+			s.mu.Unlock()
+			s.liteCache.Store(kc, cr.verdict == "unsat")
+			if cr.verdict == "unsat" {
+				s.mu.Lock()
+				s.bySolver[solvers[0].name+"(coi)"]++
+				s.mu.Unlock()
+				o.Verdict, o.Solver, o.TimeMS = "unsat", solvers[0].name+"(coi)", o.TimeMS+cr.ms
+				return
+			}
+			o.TimeMS += cr.ms
+		}
+	}
 	// stage A: length-only sequence axioms (a sound subset), short budget
 	if !o.Cover && strings.Contains(script, "(declare-fun blen ") {
 		lite := o.scriptLite()
@@ -215,10 +257,26 @@ func (s *Solver) solve(o *Oblig) {
 		// satisfiable in the presence of quantified axioms is not attempted
 		// beyond a short budget (unknown counts as not refuted)
 		res = runSolver(solvers[0], file, 3, s.seed)
-		if res.verdict != "unsat" {
+		all = append(all, res)
+		if res.verdict == "unsat" {
+			// a refutation of the hypotheses must be confirmed by a second solver before the
+			// path is declared vacuous (a single unstable answer is recorded, not acted on)
+			confirmed := false
+			for _, sv := range solvers[1:] {
+				r2 := runSolver(sv, file, 10, s.seed)
+				all = append(all, r2)
+				if r2.verdict == "unsat" {
+					confirmed = true
+					break
+				}
+			}
+			if !confirmed {
+				res.verdict = "sat"
+				res.solver += "(refutation not confirmed by a second solver)"
+			}
+		} else {
 			res.verdict = "sat"
 		}
-		all = append(all, res)
 	} else if o.quickOnly {
 		res = runSolver(solvers[0], file, 3, s.seed)
 		all = append(all, res)
